@@ -68,7 +68,8 @@ fn norm_cmp(tr: &mut Tr, a: &str, bs: &str) {
         None => 9,
     };
     tr.ev(json!({"ev": "NormCmp", "a": cps(a), "b": cps(bs),
-        "res": {"eq": x == y, "ord": ord, "pord": pord, "hashEq": hash_of(&x) == hash_of(&y), "cloneEq": x.clone() == x,
+        "res": {"eq": x == y, "ne": x != y, "lt": x < y, "le": x <= y, "gt": x > y, "ge": x >= y,
+                "ord": ord, "pord": pord, "hashEq": hash_of(&x) == hash_of(&y), "cloneEq": x.clone() == x,
                 "renorm": norm_res(guard(|| NormalizedString::new(x.as_ref())))}}));
 }
 
@@ -335,6 +336,14 @@ pub fn run_pin(args: &Args) -> (u64, u64) {
                     rng2.fill_bytes(&mut junk);
                     pin_verify_event(&mut tr, *pin, seed, &ss, &cs, &junk);
                 }
+                {
+                    let rv = crate::util::regroup_variants(&h);
+                    for v in rv.iter().step_by((rv.len() / 3).max(1)).take(3) {
+                        let mut t = [0u8; 20];
+                        t.copy_from_slice(v);
+                        pin_verify_event(&mut tr, *pin, seed, &ss, &cs, &t);
+                    }
+                }
                 let mut h4 = h;
                 for x in h4.iter_mut().skip(16) { *x = !*x; }
                 pin_verify_event(&mut tr, *pin, seed, &ss, &cs, &h4);
@@ -373,7 +382,28 @@ pub fn run_pin(args: &Args) -> (u64, u64) {
                 }
             }
             None => {
-                // invalid PINs never verify, whatever is presented
+                // invalid PINs never verify, whatever is presented - including the hashes a client would get by hashing
+                // the short PIN anyway, padded with leading zeros to four or to ten key presses (computed here for the
+                // digit sequences; the specification says: refused)
+                let digits: Vec<u8> = pin.to_string().bytes().map(|c| c - b'0').collect();
+                for want in [digits.len(), 4, 10] {
+                    if want < digits.len() || (*pin == 0 && want == digits.len()) { continue; }
+                    let mut d = vec![0u8; want - digits.len()];
+                    d.extend_from_slice(&digits);
+                    // the keypad layout of this seed
+                    let mut grid: Vec<u8> = (0..10).collect();
+                    let mut remapped = vec![];
+                    let mut sd = seed;
+                    for i in (1..=10u32).rev() {
+                        let r = (sd % i) as usize;
+                        sd /= i;
+                        remapped.push(grid.remove(r));
+                    }
+                    let keys: Vec<u8> = d.iter().map(|x| remapped.iter().position(|g| g == x).unwrap() as u8 + 0x30).collect();
+                    let inner: [u8; 20] = Sha1::new().chain_update(ss).chain_update(&keys).finalize().into();
+                    let outer: [u8; 20] = Sha1::new().chain_update(cs).chain_update(inner).finalize().into();
+                    pin_verify_event(&mut tr, *pin, seed, &ss, &cs, &outer);
+                }
                 pin_verify_event(&mut tr, *pin, seed, &ss, &cs, &[0u8; 20]);
                 let mut junk = [0u8; 20];
                 rng2.fill_bytes(&mut junk);
@@ -563,6 +593,26 @@ pub fn run_integrity(args: &Args) -> (u64, u64) {
         integ_event(&mut tr, "windows", &files, &s2, &k2);
         integ_event(&mut tr, "mac", &files, &s2, &k2);
         integ_event(&mut tr, "generic", &[data.clone()], &s2, &k2);
+    }
+    // a file argument that ENDS exactly on a multiple of a block size (4 KiB steps up to 64 KiB, 128 KiB in thorough) after
+    // starting off it, another that starts exactly there, an empty one on the boundary: every byte is hashed once
+    {
+        tr.reset("integrity-block-boundaries");
+        let top = if thorough { 32usize } else { 16 };
+        let mut big = vec![0u8; 4096 * top + 5000];
+        rng.fill_bytes(&mut big);
+        for k in 1..=top {
+            let bnd = 4096 * k;
+            let r = [1000usize, 1, 4095, 20000 % bnd][k % 4].min(bnd - 1).max(1);
+            let files: Vec<Vec<u8>> = vec![big[..r].to_vec(), big[r..bnd].to_vec(), vec![], big[bnd..bnd + 7].to_vec(), big[bnd + 7..bnd + 351].to_vec()];
+            let f = if k % 2 == 0 { "windows" } else { "mac" };
+            integ_event(&mut tr, f, &files, &salt, &key);
+            if k % 4 == 1 {
+                integ_event(&mut tr, "generic", &[big[..bnd + 351].to_vec()], &salt, &key);
+                let files2: Vec<Vec<u8>> = vec![big[..bnd].to_vec(), big[bnd..bnd + 1].to_vec(), big[bnd + 1..(2 * bnd).min(big.len())].to_vec(), vec![], vec![9]];
+                integ_event(&mut tr, if k % 8 == 1 { "windows" } else { "mac" }, &files2, &salt, &key);
+            }
+        }
     }
     // file contents are opaque bytes: byte-order marks, line endings, NULs, executable / archive signatures and
     // padding at the START or the END of any single argument are hashed like every other byte
@@ -857,6 +907,31 @@ pub fn run_matrix(args: &Args) -> (u64, u64) {
     // (quotients and residues by the number of cells, the previous seed again, 0, small seeds with several rounds),
     // and the same seed under different geometries
     {
+        // a verifier overwritten with clone_from by one of ANOTHER geometry (and seed, count): it then answers as the source
+        tr.reset("matrix-clone-from");
+        {
+            let key = [6u8; 40];
+            for (i, ((c1, h1, w1, s1), (c2, h2, w2, s2))) in [((2u8, 2u8, 2u8, 5u64), (3u8, 10u8, 8u8, 77u64)), ((3, 10, 8, 1), (2, 2, 2, 9)), ((1, 1, 1, 0), (4, 5, 3, 123456789)),
+                                                              ((3, 4, 8, 3), (3, 8, 4, 3)), ((5, 6, 6, 99), (5, 6, 6, 100))].iter().enumerate() {
+                let rounds: Vec<u8> = (0..(*c2).min(12)).chain([*c2, 255]).collect();
+                let mut res = vec![];
+                for round in &rounds {
+                    let r = guard(|| {
+                        let mut target = MatrixCardVerifier::new(*c1, *h1, *s1, *w1, &key);
+                        if i % 2 == 0 { let _ = target.get_matrix_coordinates(0); }
+                        let source = MatrixCardVerifier::new(*c2, *h2, *s2, *w2, &key);
+                        target.clone_from(&source);
+                        target.get_matrix_coordinates(*round)
+                    });
+                    res.push(match &r {
+                        Ok(Some((x, y))) => json!({"kind": "some", "x": x, "y": y}),
+                        Ok(None) => json!({"kind": "none"}),
+                        Err(m) => panic_res(m),
+                    });
+                }
+                tr.ev(json!({"ev": "CardCoord", "count": c2, "h": h2, "w": w2, "seed": u64le(*s2), "rounds": rounds, "res": res}));
+            }
+        }
         tr.reset("matrix-sequences");
         set_noisy(false);
         let key = [5u8; 40];
@@ -1062,7 +1137,7 @@ pub fn run_rng(args: &Args) -> (u64, u64) {
     let (o, r, u, s) = batch(cards, threads, |_| MatrixCard::new(2, 10, 8).data().to_vec());
     draws_event(&mut tr, "MatrixDigits", "MatrixCard::new(2,10,8)", o, r, u, s, json!({}));
     // other geometries (digit totals that are not multiples of 8, 16, 32): every position against every other
-    for (d, h, w) in [(3u8, 7u8, 5u8), (1, 1, 17), (1, 3, 11)] {
+    for (d, h, w) in [(3u8, 7u8, 5u8), (1, 1, 17), (1, 3, 11), (20, 2, 3), (25, 1, 2), (19, 1, 3)] {
         let (o, r, u, s) = batch(if thorough { 1024 } else { 256 }, threads, move |_| MatrixCard::new(d, h, w).data().to_vec());
         draws_event(&mut tr, "MatrixDigits", &format!("MatrixCard::new({},{},{})", d, h, w), o, r, u, s, json!({}));
     }
